@@ -44,7 +44,7 @@ type Options struct {
 func defaultOptions() Options {
 	return Options{
 		RepoRoot: "/repo", MaxSteps: 20_000_000, MaxDepth: 400, MaxAlloc: 1 << 22, Unwind: 64, ConcCap: 64,
-		MaxPaths: 200000, MaxGoroutines: 8, MaxSwitches: 256, MaxTimerFires: 64, MapOrderMax: 4,
+		MaxPaths: 200000, MaxGoroutines: 16, MaxSwitches: 256, MaxTimerFires: 64, MapOrderMax: 4,
 		TimeoutMs: 10000, FallbackMs: 20000, MaxViolations: 1,
 	}
 }
@@ -216,6 +216,8 @@ type Machine struct {
 	pcDoubt       bool
 	base          int
 	hidx          int
+	lastInstr     ssa.Instruction
+	lastFrame     *frame
 	shared        *Shared
 	solverAcc     SolverStats
 	ufParent      map[*Term]*Term
@@ -756,6 +758,11 @@ func (m *Machine) violation(id, msg, pos, kind string, model map[string]*big.Int
 }
 
 func (m *Machine) panicText(p targetPanic) string {
+	if p.where != "" {
+		w := p.where
+		p.where = ""
+		return m.panicText(p) + " [at " + w + "]"
+	}
 	if p.rt != "" {
 		return "runtime error: " + p.rt
 	}
